@@ -80,6 +80,10 @@ class ContractMixin:
             return V(INT, ops.to_int_term(v))
         if isinstance(kind, Ref) and v.kind == NONE:
             return V(kind, z3.IntVal(0))
+        if isinstance(kind, Opaque) and kind.sname == "Type" and v.kind == FN:
+            tv = self.as_type(v)
+            if tv is not None:
+                return tv
         if is_list(kind) and is_list(v.kind):
             if v.kind.target.elem is None:
                 v.kind.target.elem = kind.target.elem
@@ -165,7 +169,7 @@ class ContractMixin:
         for pn in c.consumes:
             if pn in env and is_list(env[pn].kind):
                 self.mark_consumed(st, env[pn])
-        if c.allocates:
+        if c.allocates and not c.pure:  # temporaries of a pure function are unreachable garbage for the caller
             t0 = st.top
             t1 = fresh("top", I)
             st.assume(t1 >= t0)
@@ -178,8 +182,24 @@ class ContractMixin:
             self.raise_exc(exc, s2, node, origin=c.qualname)
         # result
         rk = parse_kind(inst(c.returns), self.reg.opaque) if c.returns and c.returns not in ("any",) else NONE
-        res = self.fresh_value("r_" + c.fname, rk) if rk != NONE else V(NONE, None)
-        if self.comp_oracle_stack and rk != NONE:
+        if c.pure and rk != NONE and not isinstance(rk, Tup):
+            # a pure function: the result is the application of an uninterpreted function to the arguments
+            arg_terms = []
+            for n in names:
+                a_ = env[n]
+                if a_.kind in (NONE,):
+                    arg_terms.append(z3.IntVal(0))
+                elif a_.kind == FN:
+                    arg_terms.append(self.as_type(a_).term if self.as_type(a_) is not None else z3.IntVal(0))
+                elif isinstance(a_.kind, Tup):
+                    raise Unsupported(f"tuple argument of pure function {c.qualname}", node)
+                else:
+                    arg_terms.append(a_.term)
+            fn = z3.Function("pure_" + c.qualname.replace(".", "_"), *[t.sort() for t in arg_terms], rk.sort())
+            res = V(rk, fn(*arg_terms) if arg_terms else z3.Const("pure_" + c.qualname, rk.sort()))
+        else:
+            res = self.fresh_value("r_" + c.fname, rk) if rk != NONE else V(NONE, None)
+        if self.comp_oracle_stack and rk != NONE and not c.pure:
             self._collect_consts(res, self.comp_oracle_stack[-1])
         if isinstance(rk, Ref):
             st.assume(self.ref_wf(st, res))
